@@ -6,7 +6,7 @@
 use cascette_client_storage::resolver::ContentResolver;
 use cascette_crypto::md5::FileDataId;
 use cascette_crypto::{ContentKey, EncodingKey};
-use cascette_formats::archive::{ArchiveGroup, ArchiveGroupBuilder, ArchiveGroupEntry, ArchiveIndex, ArchiveIndexBuilder};
+use cascette_formats::archive::{ArchiveGroup, ArchiveGroupBuilder, ArchiveGroupEntry, ArchiveIndex, ArchiveIndexBuilder, build_merged};
 use cascette_formats::encoding::{CKeyEntryData, EKeyEntryData, EncodingBuilder, EncodingFile};
 use cascette_formats::root::{
     ContentFlags, LocaleFlags, RootBuilder, RootFile, RootHeader, RootHeaderInfo, RootMagic, RootVersion, calculate_name_hash,
@@ -66,6 +66,20 @@ struct Grp {
     zero_rec: bool,
 }
 
+/// an archive group merged from several CDN archive indices (`build_merged`, k-way heap merge) and,
+/// for comparison, the same indices through `ArchiveGroupBuilder::add_archive`
+#[derive(Default)]
+struct Grpm {
+    /// (archive number, entries (key, size, offset)) in merge order
+    srcs: Vec<(u16, Vec<(Vec<u8>, u32, u64)>)>,
+    merged: Option<ArchiveGroup>,
+    via_builder: Option<ArchiveGroup>,
+    /// key -> (archive number, offset, size) of the FIRST source (merge order) listing the key
+    reference: BTreeMap<Vec<u8>, (u16, u32, u32)>,
+    /// a key twice inside ONE source (the property is over key sets: oracle skipped)
+    dup_in_src: bool,
+}
+
 struct RootS {
     ver: RootVersion,
     recs: Vec<(u32, [u8; 16], Option<u64>, u32, u64)>,
@@ -112,6 +126,7 @@ enum Mode {
     Enc(Enc),
     Idx(Idx),
     Grp(Grp),
+    Grpm(Grpm),
     Root(RootS),
     Tvfs(Tvfs),
     Res(Res),
@@ -234,6 +249,16 @@ impl Impl {
                     return None;
                 }
                 self.mode = Mode::Grp(Grp::default());
+                self.built = false;
+                return Some("ok".into());
+            }
+            ["begin", "grpm", rpb, srpb] => {
+                // records per 4 KiB block: 26-byte group records, 24-byte source-index records
+                let (rpb, srpb): (usize, usize) = (rpb.parse().ok()?, srpb.parse().ok()?);
+                if rpb != 4096 / 26 || srpb != 4096 / 24 {
+                    return None;
+                }
+                self.mode = Mode::Grpm(Grpm::default());
                 self.built = false;
                 return Some("ok".into());
             }
@@ -640,6 +665,120 @@ impl Impl {
                 }
                 _ => None,
             },
+            Mode::Grpm(st) => match toks {
+                ["a", a] => {
+                    let a: u16 = a.parse().ok()?;
+                    if built {
+                        return None;
+                    }
+                    st.srcs.push((a, vec![]));
+                    Some("ok".into())
+                }
+                ["e", k, sz, off] => {
+                    let (k, sz, off) = (unhex(k)?, sz.parse::<u32>().ok()?, off.parse::<u64>().ok()?);
+                    if k.len() != 16 || built || off > u32::MAX as u64 || st.srcs.is_empty() {
+                        return None;
+                    }
+                    let (a, ents) = st.srcs.last_mut()?;
+                    if ents.iter().any(|e| e.0 == k) {
+                        st.dup_in_src = true;
+                    }
+                    st.reference.entry(k.clone()).or_insert((*a, off as u32, sz)); // first source wins (documented dedup)
+                    ents.push((k, sz, off));
+                    Some("ok".into())
+                }
+                ["build"] => {
+                    self.built = true;
+                    // every source: ArchiveIndexBuilder (16-byte keys, 4-byte offsets) -> bytes -> parse
+                    let mut idxs: Vec<(u16, ArchiveIndex)> = vec![];
+                    for (a, ents) in &st.srcs {
+                        let mut b = ArchiveIndexBuilder::new();
+                        for (k, sz, off) in ents {
+                            b.add_entry(k.clone(), *sz, *off);
+                        }
+                        let mut out = Vec::new();
+                        let r = catch(AssertUnwindSafe(|| b.build(Cursor::new(&mut out)).map(|_| ())));
+                        let p = match r {
+                            Ok(Ok(())) => catch(AssertUnwindSafe(|| ArchiveIndex::parse(Cursor::new(&out)))),
+                            Ok(Err(_)) => return Some("err:build-src".into()),
+                            Err(_) => return Some("panic".into()),
+                        };
+                        match p {
+                            Ok(Ok(p)) => idxs.push((*a, p)),
+                            Ok(Err(e)) => {
+                                fail(s, "grpm-src-parse", format!("source index of archive {a} ({} entries) does not parse: {e}", ents.len()));
+                                return Some("err:parse-src".into());
+                            }
+                            Err(_) => return Some("panic".into()),
+                        }
+                    }
+                    let refs: Vec<(u16, &ArchiveIndex)> = idxs.iter().map(|(a, i)| (*a, i)).collect();
+                    let mut mbytes = Vec::new();
+                    match catch(AssertUnwindSafe(|| build_merged(&refs, Cursor::new(&mut mbytes)).map(|_| ()))) {
+                        Ok(Ok(())) => {}
+                        Ok(Err(_)) => return Some("err:build".into()),
+                        Err(_) => return Some("panic".into()),
+                    }
+                    let mut gb = ArchiveGroupBuilder::new();
+                    for (a, i) in &idxs {
+                        gb.add_archive(*a, i);
+                    }
+                    let mut bbytes = Vec::new();
+                    match catch(AssertUnwindSafe(|| gb.build(Cursor::new(&mut bbytes)).map(|_| ()))) {
+                        Ok(Ok(())) => {}
+                        Ok(Err(_)) => return Some("err:build".into()),
+                        Err(_) => return Some("panic".into()),
+                    }
+                    let same = mbytes == bbytes;
+                    let shape = format!("{} archives with {} entries, {} distinct keys", st.srcs.len(), st.srcs.iter().map(|x| x.1.len().to_string()).collect::<Vec<_>>().join("+"), st.reference.len());
+                    if !same && !st.dup_in_src {
+                        fail(s, "grpm-merged-vs-builder", format!("{shape}: build_merged output ({} bytes) differs from ArchiveGroupBuilder::add_archive + build ({} bytes)", mbytes.len(), bbytes.len()));
+                    }
+                    let m = catch(AssertUnwindSafe(|| ArchiveGroup::parse(&mut Cursor::new(&mbytes))));
+                    let b = catch(AssertUnwindSafe(|| ArchiveGroup::parse(&mut Cursor::new(&bbytes))));
+                    match (m, b) {
+                        (Ok(Ok(m)), Ok(Ok(b))) => {
+                            let r = format!("ok n={} same={} src={}", m.entries.len(), same as u8, idxs.iter().map(|x| x.1.entries.len().to_string()).collect::<Vec<_>>().join("+"));
+                            if !st.dup_in_src && (m.entries.len() != st.reference.len() || b.entries.len() != st.reference.len()) {
+                                fail(s, "grpm-parse", format!("{shape}: merged group holds {} entries, builder group {}", m.entries.len(), b.entries.len()));
+                            }
+                            st.merged = Some(m);
+                            st.via_builder = Some(b);
+                            Some(r)
+                        }
+                        (Err(_), _) | (_, Err(_)) => Some("panic".into()),
+                        (m, b) => {
+                            fail(s, "grpm-parse", format!("{shape}: built group does not parse (merged ok={}, builder ok={})", matches!(m, Ok(Ok(_))), matches!(b, Ok(Ok(_)))));
+                            Some("err:parse".into())
+                        }
+                    }
+                }
+                ["f", arg] => {
+                    let (Some(m), Some(b)) = (&st.merged, &st.via_builder) else { return if built { Some("err:nofile".into()) } else { None } };
+                    let k = unhex(arg)?;
+                    let got = match catch(AssertUnwindSafe(|| (m.find_entry(&k).cloned(), b.find_entry(&k).cloned()))) {
+                        Ok(g) => g,
+                        Err(_) => return Some("panic".into()),
+                    };
+                    let g = got.0.as_ref().map(|e| (e.archive_index, e.offset, e.size));
+                    let gb = got.1.as_ref().map(|e| (e.archive_index, e.offset, e.size));
+                    if !st.dup_in_src {
+                        let want = st.reference.get(&k).copied();
+                        if g != want {
+                            fail(s, "grpm-lookup", format!("{} archives, key {arg}: find_entry on the merged group returned {g:?}, inserted (first archive listing it) {want:?}", st.srcs.len()));
+                        }
+                        if gb != want {
+                            fail(s, "grpm-builder-lookup", format!("{} archives, key {arg}: find_entry on the add_archive group returned {gb:?}, inserted {want:?}", st.srcs.len()));
+                        }
+                        let lin = m.entries.iter().find(|e| e.encoding_key == k).map(|e| (e.archive_index, e.offset, e.size));
+                        if lin != g {
+                            fail(s, "grpm-linear", format!("key {arg}: binary search differs from linear scan of the merged group"));
+                        }
+                    }
+                    Some(g.map(|(a, o, z)| format!("{a} {o} {z}")).unwrap_or("none".into()))
+                }
+                _ => None,
+            },
             Mode::Root(st) => match toks {
                 [op @ ("r" | "rp"), fd, ck, nh, loc, cf] => {
                     let (fd, ck, loc, cf) = (fd.parse::<u32>().ok()?, k16(ck)?, loc.parse::<u32>().ok()?, cf.parse::<u64>().ok()?);
@@ -733,9 +872,14 @@ impl Impl {
                     }).collect();
                     got.sort();
                     want.sort();
-                    if !st.wide && (!ordered || got != want) {
+                    if !ordered || got != want {
                         let sig = if st.ambiguous { SIG_V2 } else { "root-blocks-as-inserted" };
-                        fail(s, sig, format!("parsed blocks ({} records, ordered={ordered}) are not the {} inserted records in builder order", got.len(), want.len()));
+                        // name the first inserted record that is missing / first parsed record never inserted
+                        let show = |r: &(u32, u64, u32, [u8; 16], Option<u64>)| format!("fdid {} in block locale {:#x} content {:#x} (key {}, name hash {:?})", r.2, r.0, r.1, hex(&r.3), r.4);
+                        let missing = want.iter().find(|w| !got.contains(w)).map(|w| show(w)).unwrap_or("-".into());
+                        let extra = got.iter().find(|g| !want.contains(g)).map(|g| show(g)).unwrap_or("-".into());
+                        let named_total = st.recs.iter().filter(|r| r.2.is_some()).count();
+                        fail(s, sig, format!("V{} root, {} inserted records ({} with a name) in {} blocks: parsed {} blocks / {} records (ordered={ordered}) are not the inserted records in builder order; first inserted record not parsed: {missing}; first parsed record never inserted: {extra}", ver_num(st.ver), want.len(), named_total, st.by_id.keys().map(|k| (k.1, k.2)).collect::<BTreeSet<_>>().len(), p.blocks.len(), got.len()));
                     }
                     Some(join_or(
                         p.blocks.iter().map(|b| format!("{}:{}:{}:{}", b.header.locale_flags.value(), b.header.content_flags, b.header.num_records, b.records.iter().map(|r| r.file_data_id.get().to_string()).collect::<Vec<_>>().join("+"))).collect(),
@@ -1062,6 +1206,7 @@ impl Impl {
                 Mode::Enc(_) => "enc",
                 Mode::Idx(_) => "idx",
                 Mode::Grp(_) => "grp",
+                Mode::Grpm(_) => "grpm",
                 Mode::Root(_) => "root",
                 Mode::Tvfs(_) => "tvfs",
                 Mode::Res(_) => "res",
@@ -1502,6 +1647,145 @@ fn case_root_multi(im: &mut Impl, s: &mut Session, rng: &mut Rng, ver: u32, name
     s.case(Some(&format!("rootm v{ver} names{names} shape{shape} {} {nb} {}", files.len(), files.first().map(|f| f.fd).unwrap_or(0))));
 }
 
+/// An archive group merged from `k` CDN archive indices. `pattern`: 0 = every key in a random
+/// non-empty subset of the archives, 1 = disjoint archives, 2 = all archives identical, 3 / 4 / 5 = one
+/// key shared by ALL archives at the start / in the middle / at the end of the key range with further
+/// private entries around it, 6 = archives 1.. are subsets of archive 0, 7 = each key shared by two
+/// neighbouring archives (a chain), 8 = random subsets plus an empty archive.
+fn case_grpm(im: &mut Impl, s: &mut Session, rng: &mut Rng, k: usize, total: usize, pattern: u8) {
+    im.exec(s, "begin grpm 157 170");
+    let style = rng.below(3);
+    let ext = rng.chance(1, 3);
+    let mut pool = key_set(rng, 16, total, style, ext);
+    pool.sort();
+    let n = pool.len();
+    // membership[i] = archives (by merge position) listing pool[i]
+    let mut member: Vec<Vec<usize>> = vec![vec![]; n];
+    let shared_at = match pattern { 3 => Some(0), 4 => Some(n / 2), 5 => Some(n.saturating_sub(1)), _ => None };
+    for i in 0..n {
+        member[i] = match pattern {
+            0 | 8 => { let mut m: Vec<usize> = (0..k).filter(|_| rng.chance(1, 2)).collect(); if m.is_empty() { m.push(rng.below(k as u64) as usize); } m }
+            1 | 3 | 4 | 5 => if Some(i) == shared_at { (0..k).collect() } else { vec![rng.below(k as u64) as usize] },
+            2 => (0..k).collect(),
+            6 => { let mut m = vec![0]; m.extend((1..k).filter(|_| rng.chance(1, 3))); m }
+            _ => { let a = rng.below(k as u64) as usize; if k > 1 { vec![a, (a + 1) % k] } else { vec![a] } }
+        };
+    }
+    let empty_pos = if pattern == 8 { Some(rng.below(k as u64 + 1) as usize) } else { None };
+    // archive numbers: distinct, in no particular order (merge priority is the POSITION, not the number)
+    let mut nums: BTreeSet<u16> = BTreeSet::new();
+    while nums.len() < k + 1 { nums.insert(match rng.below(4) { 0 => rng.below(4) as u16, 1 => 0xFFFF - rng.below(4) as u16, _ => rng.below(65536) as u16 }); }
+    let mut nums: Vec<u16> = nums.into_iter().collect();
+    for i in (1..nums.len()).rev() { let j = rng.below(i as u64 + 1) as usize; nums.swap(i, j); }
+    let mut shared = 0u64;
+    for a in 0..k {
+        if empty_pos == Some(a) { im.exec(s, &format!("a {}", nums[k])); }
+        im.exec(s, &format!("a {}", nums[a]));
+        let mut mine: Vec<usize> = (0..n).filter(|i| member[*i].contains(&a)).collect();
+        // insertion order is shuffled: the index builder sorts
+        for i in (1..mine.len()).rev() { let j = rng.below(i as u64 + 1) as usize; mine.swap(i, j); }
+        for i in mine {
+            if member[i].len() > 1 && member[i][0] == a { shared += 1; }
+            // every listing gets its own (size, offset): the merged value must be the FIRST archive's
+            im.exec(s, &format!("e {} {} {}", hex(&pool[i]), rng.range(1, 0xFFFF_FFFF), match rng.below(6) { 0 => 0, 1 => 0xFFFF_FFFF, _ => rng.range(0, 0xFFFF_FFFF) }));
+        }
+    }
+    if empty_pos == Some(k) { im.exec(s, &format!("a {}", nums[k])); }
+    let r = im.exec(s, "build");
+    for q in probes(rng, &pool, 16, n <= 500) {
+        im.exec(s, &format!("f {}", hex(&q)));
+    }
+    s.tally(&format!("grpm.archives.{k}"));
+    s.tally(&format!("grpm.pattern.{}", ["random-subsets", "disjoint", "identical", "shared-first-key", "shared-middle-key", "shared-last-key", "subsets-of-first", "chain", "with-empty-archive"][pattern as usize % 9]));
+    s.tally_n("grpm.keys-listed-by-several-archives", shared);
+    if r.starts_with("ok") {
+        s.case(Some(&format!("grpm {k} {n} {pattern} {style} {}", pool.first().map(|x| hex(x)).unwrap_or_default())));
+    } else {
+        s.case(None);
+    }
+}
+
+/// The root name-hash matrix: version × which records have a name (`naming`: 0 all, 1 none, 2 mixed)
+/// × which blocks carry NO_NAME_HASH (`flagmode`: 0 none, 1 all, 2 mixed) × 1..4 blocks — also the
+/// combinations in which records and block format disagree (the writer stores name hash 0 for an
+/// unnamed record of a named block and drops the name of a record in a NO_NAME_HASH block). Every
+/// record is looked up under its own block's flags, so a block lost by the parser shows at once.
+fn case_root_matrix(im: &mut Impl, s: &mut Session, rng: &mut Rng, ver: u32, naming: u8, flagmode: u8, nblocks: usize, per_block: usize) {
+    im.exec(s, &format!("begin root {ver}"));
+    const NO_NAME: u64 = 0x1000_0000;
+    let all_loc = [0x2u32, 0x4, 0x10, 0x20, 0x40, 0x80, 0x100, 0x200];
+    let all_cf = [0u64, 0x4, 0x8, 0x80, 0x800_0000];
+    let mut blocks: Vec<(u32, u64)> = vec![];
+    while blocks.len() < nblocks {
+        let j = blocks.len();
+        let mut cf = *rng.pick(&all_cf);
+        let flagged = match flagmode { 0 => false, 1 => true, _ => if nblocks == 1 { rng.chance(1, 2) } else { j % 2 == 1 } };
+        if flagged { cf |= NO_NAME; }
+        if ver == 4 && rng.chance(1, 3) { cf |= 1 << 34; }
+        let b = (*rng.pick(&all_loc), cf);
+        if !blocks.contains(&b) { blocks.push(b); }
+    }
+    let rver = ver_of(&ver.to_string()).unwrap_or(RootVersion::V1);
+    // (a V2 manifest is kept out of the recorded header-ambiguity window: 16..99 files with < 10 named)
+    let mut per_block = per_block;
+    if rver == RootVersion::V2 && (16..100).contains(&(per_block * nblocks)) { per_block = 100usize.div_ceil(nblocks); }
+    let mut fd: u32 = rng.below(3000) as u32;
+    // (fdid, ckey, name hash, block)
+    let mut recs: Vec<(u32, Vec<u8>, Option<u64>, usize)> = vec![];
+    for j in 0..nblocks {
+        for i in 0..per_block {
+            // most files are private to a block; every fourth is listed by the next block too
+            fd += match rng.below(5) { 0 => 1, 1 => rng.range(1, 70_000) as u32, _ => rng.range(1, 4) as u32 };
+            let named = match naming { 0 => true, 1 => false, _ => rng.chance(1, 2) };
+            let nh = if named { Some(rng.next() | 1) } else { None };
+            recs.push((fd, rng.bytes(16), nh, j));
+            if i % 4 == 3 && nblocks > 1 { recs.push((fd, rng.bytes(16), nh, (j + 1) % nblocks)); }
+        }
+    }
+    if naming == 2 && recs.len() >= 2 {
+        // mixed: at least one record of each kind
+        recs[0].2 = Some(rng.next() | 1);
+        recs[1].2 = None;
+    }
+    if rver == RootVersion::V2 && (16..100).contains(&recs.len()) && recs.iter().filter(|r| r.2.is_some()).count() < 10 {
+        // fill up to leave the window
+        while recs.len() < 100 { fd += 1; let named = naming != 1; recs.push((fd, rng.bytes(16), if named { Some(rng.next() | 1) } else { None }, rng.below(nblocks as u64) as usize)); }
+    }
+    let mut order: Vec<usize> = (0..recs.len()).collect();
+    for i in (1..order.len()).rev() { let j = rng.below(i as u64 + 1) as usize; order.swap(i, j); }
+    for &i in &order {
+        let (fd, ck, nh, j) = &recs[i];
+        let (loc, cf) = blocks[*j];
+        im.exec(s, &format!("r {fd} {} {} {loc} {cf}", hex(ck), nh.map(|h| h.to_string()).unwrap_or("-".into())));
+    }
+    let r = im.exec(s, "build");
+    im.exec(s, "blocks");
+    im.exec(s, "stats");
+    let stride = (recs.len() / 60).max(1);
+    for (i, (fd, _, nh, j)) in recs.iter().enumerate() {
+        if i % stride != 0 && i + 2 < recs.len() { continue; }
+        let (loc, cf) = blocks[*j];
+        im.exec(s, &format!("id {fd} {loc} {cf}"));
+        if let Some(h) = nh { im.exec(s, &format!("nh {h} {loc} {cf}")); }
+        if i % 3 == 0 {
+            im.exec(s, &format!("ids {fd}"));
+            im.exec(s, &format!("id {fd} {} 0", 0xFFFF_FFFFu32));
+            im.exec(s, &format!("id {} {loc} {cf}", fd + 3_000_000));
+            // the other blocks' flags: a hit only where the file is listed
+            for &(l2, c2) in &blocks { if (l2, c2) != (loc, cf) { im.exec(s, &format!("id {fd} {l2} {c2}")); } }
+            if let Some(h) = nh { im.exec(s, &format!("nh {} {loc} {cf}", h.wrapping_add(2))); }
+            im.exec(s, &format!("nh 0 {loc} {cf}"));
+        }
+    }
+    s.tally(&format!("root.matrix.v{ver}.{}.{}", ["all-named", "none-named", "mixed-names"][naming as usize % 3], ["no-block-flagged", "all-blocks-NO_NAME_HASH", "mixed-block-flags"][flagmode as usize % 3]));
+    s.tally(&format!("root.matrix.blocks.{nblocks}"));
+    if r.starts_with("ok") {
+        s.case(Some(&format!("rootx v{ver} n{naming} f{flagmode} b{nblocks} {} {}", recs.len(), recs.first().map(|r| r.0).unwrap_or(0))));
+    } else {
+        s.case(None);
+    }
+}
+
 fn name(rng: &mut Rng, len: usize) -> Vec<u8> {
     let alpha = b"abcdefghijklmnopqrstuvwxyzABCDEF0123456789_.- ";
     let mut v: Vec<u8> = (0..len).map(|_| *rng.pick(alpha)).collect();
@@ -1720,6 +2004,19 @@ fn main() {
     for _ in 0..(if th { 12 } else { 4 }) {
         case_grp(&mut im, &mut s, &mut rng, th);
     }
+    // --- archive groups merged from 1..5 archive indices (k-way heap merge) vs ArchiveGroupBuilder:
+    //     every sharing pattern for every k, small and around the 157-record block capacity
+    for k in 1..=5usize {
+        for pattern in 0..9u8 {
+            if k == 1 && !matches!(pattern, 0 | 8) { continue; }
+            let small = rng.range(2, 14) as usize;
+            case_grpm(&mut im, &mut s, &mut rng, k, small, pattern);
+            if th || (k as u8 + pattern) % 3 == (args.seed % 3) as u8 {
+                let big = sizes_around(&mut rng, 157, if th { 4 } else { 2 }).max(3);
+                case_grpm(&mut im, &mut s, &mut rng, k, big, pattern);
+            }
+        }
+    }
     // --- roots
     let counts: Vec<usize> = if th { vec![1, 2, 9, 10, 15, 16, 17, 20, 50, 98, 99, 100, 101, 257, 1500] } else { vec![1, 15, 16, 17, 50, 99, 100, 101, 300] };
     for ver in 1..=4u32 {
@@ -1743,6 +2040,19 @@ fn main() {
             }
         }
     }
+    // --- the name-hash matrix: version × {all / no / some records named} × {no / all / some blocks with
+    //     NO_NAME_HASH} × 1..4 blocks, per-block lookups
+    for ver in 1..=4u32 {
+        for naming in 0..3u8 {
+            for flagmode in 0..3u8 {
+                for nblocks in 1..=4usize {
+                    let per_block = if (ver as usize + naming as usize + flagmode as usize + nblocks + args.seed as usize) % 7 == 0 { rng.range(26, 40) as usize } else { rng.range(1, 3) as usize };
+                    case_root_matrix(&mut im, &mut s, &mut rng, ver, naming, flagmode, nblocks, per_block);
+                    if th { let pb = rng.range(1, 60) as usize; case_root_matrix(&mut im, &mut s, &mut rng, ver, naming, flagmode, nblocks, pb); }
+                }
+            }
+        }
+    }
     // the shipped shape: 150 files in three locale blocks, every third file locale-independent
     for ver in 1..=4u32 {
         case_root_multi(&mut im, &mut s, &mut rng, ver, if ver % 2 == 0 { 2 } else { 1 }, 0, 150);
@@ -1754,6 +2064,44 @@ fn main() {
     }
     for l in [255usize, 256, 300, 510] {
         case_tvfs(&mut im, &mut s, &mut rng, 1, 0, 3, Some(l), false);
+    }
+    // --- tvfs builder configurations: every flag combination (INCLUDE_CKEY | ENCODING_SPEC |
+    //     PATCH_SUPPORT) × EST size classes × file counts around the 255-byte container-table boundary
+    //     of that configuration (entry sizes 13..26 bytes: 9..21 files cover n*size = 255 for all)
+    for flags in 0..8u32 {
+        let est_kinds: &[u8] = if flags & 2 != 0 { &[0, 1, 2, 3] } else { &[0, 1] };
+        for &est in est_kinds {
+            for n in 9..=21usize {
+                if !th && est == 1 && flags & 2 == 0 && n % 3 != 0 { continue; }   // specs without ENCODING_SPEC are ignored
+                case_tvfs(&mut im, &mut s, &mut rng, flags, est, n, None, n % 2 == 0);
+            }
+            let n = rng.range(22, 120) as usize;
+            case_tvfs(&mut im, &mut s, &mut rng, flags, est, n, None, false);
+        }
+    }
+    // the 64 KiB container-table boundary (3-byte offsets): n*size crosses 65535. With PATCH_SUPPORT the
+    // entry itself grows with the offset width: the crossing is where the entry with the 2-byte patch
+    // offset no longer fits; the counts where the 1-byte and 3-byte entry sizes would cross are swept too.
+    let entry = |flags: u32, est_w: usize, patch_w: usize| 13 + if flags & 1 != 0 { 9 } else { 0 } + if flags & 2 != 0 { est_w } else { 0 } + if flags & 4 != 0 { patch_w } else { 0 };
+    let mut big: Vec<(u32, u8, usize)> = vec![];
+    for flags in 0..8u32 {
+        for est in [1u8, 2] {
+            if flags & 2 == 0 && est == 2 { continue; }
+            let est_w = if flags & 2 != 0 && est == 2 { 2 } else { 1 };
+            // first file count whose table no longer fits 2-byte offsets, computed with 1-, 2- and
+            // 3-byte patch offsets (all equal without PATCH_SUPPORT)
+            let n1 = 65536usize.div_ceil(entry(flags, est_w, 1));
+            let n2 = 65536usize.div_ceil(entry(flags, est_w, 2));
+            let n3 = 65536usize.div_ceil(entry(flags, est_w, 3));
+            for n in [n2 - 1, n2, n3 - 1, n3, n1 - 1, n1] { if !big.contains(&(flags, est, n)) { big.push((flags, est, n)); } }
+        }
+    }
+    for (i, &(flags, est, n)) in big.iter().enumerate() {
+        // quick: PATCH_SUPPORT | INCLUDE_CKEY at its crossing always, the others rotate with the seed
+        let always = flags == 5 && est == 1 && n == 65536usize.div_ceil(24);
+        if th || always || i as u64 % 24 == args.seed % 24 {
+            case_tvfs(&mut im, &mut s, &mut rng, flags, est, n, None, true);
+        }
     }
     // --- resolver chain
     for ver in 1..=4u32 {
